@@ -136,6 +136,8 @@ def sum_cases():
               "sum(x for x in range(3) for x in range(4))", "sum(i and 2 for i in range(4))", "sum(i or 1 for i in range(4))", "sum(i if i else 1 for i in range(4))", "sum(i / 2 for i in range(5))",
               "sum(i // 2 for i in range(5))", "sum(i % 2 for i in range(5))", "sum(i ^ 1 for i in range(4))", "sum(-i for i in range(4))", "sum(2 ** i for i in range(5))", "sum(x for x in ())", "sum([])",
               "sum(i for i in range(10) if i > 12)", "sum(i == 1 for i in range(4))", "sum(i * k for i in range(3) for k in range(2))", "sum(n for i in range(4))", "sum(i for i in [1, 2, 2])", "sum(i for i in {1, 2, 2})"]
+    cases += ["sum(x for x in {n, m_})", "sum(x * 2 for x in {n, m_, 3})", "sum(x for x in [n, m_])", "sum(x for x in (n, m_, n))", "sum(x for x in {n, n})", "sum(x for x in {n, 1})", "sum(x for x in {2, 1, 1})",
+              "sum(x * x for x in {n, -n})", "sum(1 for x in {n, m_})"]
     cases += ["sum(range(5, 3))", "sum(range(n))", "sum(range(0, n))", "sum(x for x in range(n))", "sum(range(2, n))", "sum([n * x for x in range(3)])"]
     return cases
 
@@ -152,6 +154,8 @@ def eval_expr_case(args):
     src = f"r = {e}\n"
     fails = []
     envs = [{"n": n} for n in range(-2, 7)] if "n" in e.replace("range", "").replace("in ", "") else [{}]
+    if "m_" in e:        # two free variables: every pair, equal values included (elements of a set display that are equal count once)
+        envs = [{"n": n, "m_": m} for n in range(-1, 4) for m in range(-1, 4)]
 
     def val(expr):
         out = []
